@@ -34,7 +34,8 @@ def digest (x : WP) : String :=
     let unc := ",".intercalate (b.unconfirmed.map fun d => s!"{d.id}:{d.workerSeq}:{d.storeSeq}:{d.payload}")
     s!"{b.name}/{b.comp}/{b.nonce}/{b.currentSeq}/{b.confirmedSeq}/{b.demandUpTo}/[{unc}]")
   let st := match x.storedMessage with | some m => showPU m | none => "-"
-  s!"W\{ss={x.storeSeq} pend=[{pend}] b=[{bs}] nm={x.bindings.length} nw={x.nextWorker} hs={hsNum x.handshake} tok={x.token} pid={x.pendingId} pss={x.pendingStoreSeq} ppl={x.pendingPayload} st={st} lt={x.lastToken} lid={x.lastId} f={b2n x.failed}}"
+  let fd := ",".intercalate (([1, 2, 3] : List Nat).filterMap fun w => (x.find w).map fun b => s!"{w}:{b.freeDemand}")
+  s!"W\{ss={x.storeSeq} pend=[{pend}] b=[{bs}] fd=[{fd}] nm={x.bindings.length} nw={x.nextWorker} hs={hsNum x.handshake} tok={x.token} pid={x.pendingId} pss={x.pendingStoreSeq} ppl={x.pendingPayload} st={st} lt={x.lastToken} lid={x.lastId} f={b2n x.failed}}"
 
 def traceOf (x : WP) (o : List WOut) : String :=
   let dests : List (Nat × Nat) := [(1,0),(1,1),(2,0),(2,1),(3,0),(3,1)]
@@ -142,8 +143,11 @@ def snapOf (op seg : String) : Option (Option Spec.C44.Snap) := do
   let notices : List Nat ← match toks.find? (·.startsWith "pu:") with
     | some t => ((((t.drop 3).toString.splitOn ")").filter (· ≠ "")).mapM noticeOf).map (fun (l : List (Option Nat)) => l.filterMap id)
     | none => some []
+  let fdTok ← toks.find? (·.startsWith "fd=[")
+  let fdInner ← bracket fdTok "fd="
+  let frees ← if fdInner = "" then some [] else (fdInner.splitOn ",").mapM fun e => ((e.splitOn ":").getD 1 "").toNat?
   let kind := if op = "up" then 1 else if op.startsWith "q" || op.startsWith "k" then 2 else 0
-  return some { kind := kind, held := pend ++ unc.flatten, notices := notices }
+  return some { kind := kind, held := pend ++ unc.flatten, notices := notices, pending := pend.length, maxFree := frees.foldl max 0 }
 
 def judge (line : String) : String :=
   let (c, o) := splitTab line
